@@ -34,7 +34,10 @@ CCalls(s) ==
   \cup (IF "cond" \in CFams /\ s \in {CDead, CFresh} THEN   \* the constructor ignores the receiver
             {[op |-> "Cond", k |-> KwRec(k), o |-> o, x |-> x] : k \in KwArgs, o \in OpArgs, x \in ExArgs}
        \cup {[op |-> "Init"]} ELSE {})
-  \cup (IF "opts" \in CFams THEN {[op |-> "SetOpt", f |-> f, m |-> m] : f \in COptFlags, m \in {"on", "off", "toggle"}} ELSE {})
+  \cup (IF "opts" \in CFams
+        THEN {[op |-> "SetOpt", f |-> f, m |-> m, dep |-> FALSE] : f \in COptFlags, m \in {"on", "off", "toggle"}}
+             \cup {[op |-> "SetOpt", f |-> f, m |-> m, dep |-> TRUE] : f \in COptFlags \ {"ronly"}, m \in {"on", "off", "toggle"}}
+        ELSE {})
   \cup (IF "life" \in CFams THEN {[op |-> "Free"], [op |-> "Init"], [op |-> "SetErr", on |-> TRUE], [op |-> "SetErr", on |-> FALSE]} ELSE {})
   \cup (IF "settings" \in CFams THEN
             {[op |-> "SetID", v |-> v] : v \in {"", "x"}} \cup {[op |-> "SetCategory", v |-> v] : v \in {"", "c"}}
